@@ -102,13 +102,17 @@ int main(int argc, char **argv)
 						r = wirelen >= 0 ? cli_extract(got, sizeof(got), &at) : -9;
 						if (r < 0) r = 0;
 						full = (n <= 64 || n % 16 == 0);
+						if (withwire) {
+							if (n <= 64 || n % 32 == 0 || (n >= 200 && n <= 260) || n >= 4090) {
+								printf("{\"e\":\"Msg\",\"who\":\"S\",\"qt\":%d,\"codec\":\"%c\",\"len\":%d,", types[t], codecs[c], n);
+								parr("b", wire, wirelen < 0 ? 0 : wirelen);
+								printf("}\n");
+							}
+							continue;
+						}
 						printf("{\"e\":\"Down\",\"qt\":%d,\"codec\":\"%c\",\"qlen\":%d,\"kind\":%d,\"seed\":%d,\"len\":%d,\"glen\":%d,\"gsum\":%u,\"full\":%s,",
 						       types[t], codecs[c], qn, kind, (seed + n) & 0xff, n, r, csum((unsigned char *) got, r), full ? "true" : "false");
 						parr("got", (unsigned char *) got, full ? r : 0);
-						if (withwire && (n <= 64 || n % 64 == 0)) {
-							printf(",");
-							parr("wire", wire, wirelen < 0 ? 0 : wirelen);
-						}
 						printf("}\n");
 					}
 					printf("{\"e\":\"Reset\"}\n");
